@@ -108,6 +108,25 @@ def run(rep, tier, seed):
         case = engine.Case(t, ('bits', ''.join(rng.choice('01') for _ in range(nb))))
         rep.case(case.canon, nontrivial=True)
         check_case(rep, drv, case, None)
+    # long BIT STRINGs / strings with structure at the 1000-octet segment boundaries: all-zero segments in front,
+    # in the middle and at the end, a single set bit just before / after a boundary
+    shapes = []
+    for nb in (8009, 16001):
+        shapes += ['0' * nb, '0' * (nb - 1) + '1', '1' + '0' * (nb - 1), '0' * 8000 + '1' * (nb - 8000),
+                   '0' * 7999 + '1' + '0' * (nb - 8000), '1' * 8000 + '0' * (nb - 8000)]
+    for bits in shapes:
+        for tt in (t, ('seq', [('r', None, ('int',)), ('r', None, ('tag', 'i', 'c', 0, ('bits',)))])):
+            v = ('bits', bits) if tt is t else ('seq', [('i', 5), ('bits', bits)])
+            case = engine.Case(tt, v)
+            rep.case(case.canon, nontrivial=True)
+            rep.count('long-bits-structured')
+            check_case(rep, drv, case, None)
+    for kind in (4, 22):
+        for body in (b'\x00' * 2001, b'\x00' * 1000 + b'\x01' * 1001, b'\x01' * 1000 + b'\x00' * 1001):
+            case = engine.Case(('str', kind), ('s', body))
+            rep.case(case.canon, nontrivial=True)
+            rep.count('long-strings-structured')
+            check_case(rep, drv, case, None)
     for case in engine.gen_cases(rng, n, max_depth=3, allow_any=True):
         if not engine.representable(case):
             continue
